@@ -30,6 +30,8 @@ type holdings struct {
 	sel    map[string]string         // selector -> reporter
 	refund map[string]math.Int       // "dispute id|payer" -> recorded dispute-fee payment (from balance) still awaiting its refund
 	disp   math.Int                  // balance of the dispute module account
+	recFee math.Int                  // fees recorded as paid, over all disputes (the latest round's cumulative FeeTotal per dispute hash)
+	recEsc math.Int                  // stake recorded as escrowed, over all disputes
 }
 
 type privState struct {
@@ -48,6 +50,8 @@ type C19Monitor struct {
 	h    holdings
 	p    privState
 	repo map[string]reportertypes.OracleReporter
+	// selectors of the reporter at the moment a report was accepted, per (query id | reporter | height)
+	backers map[string][]string
 }
 
 func NewC19Monitor(st *Stats) *C19Monitor { return &C19Monitor{st: st} }
@@ -83,6 +87,23 @@ func takeHoldings(c *Chain, ctx sdk.Context) holdings {
 		return false, nil
 	})
 	h.disp = modBal(c, ctx, disputetypes.ModuleName)
+	perHash := map[string]math.Int{}
+	_ = c.App.DisputeKeeper.Disputes.Walk(ctx, nil, func(_ uint64, d disputetypes.Dispute) (bool, error) {
+		if old, ok := perHash[string(d.HashId)]; !ok || d.FeeTotal.GT(old) {
+			perHash[string(d.HashId)] = d.FeeTotal
+		}
+		return false, nil
+	})
+	h.recFee, h.recEsc = math.ZeroInt(), math.ZeroInt()
+	for _, f := range perHash {
+		h.recFee = h.recFee.Add(f)
+	}
+	_ = c.App.ReporterKeeper.DisputedDelegationAmounts.Walk(ctx, nil, func(_ []byte, d reportertypes.DelegationsAmounts) (bool, error) {
+		if !d.Total.IsNil() {
+			h.recEsc = h.recEsc.Add(d.Total)
+		}
+		return false, nil
+	})
 	_ = c.App.ReporterKeeper.Selectors.Walk(ctx, nil, func(k []byte, s reportertypes.Selection) (bool, error) {
 		h.sel[sdk.AccAddress(k).String()] = sdk.AccAddress(s.Reporter).String()
 		return false, nil
@@ -155,6 +176,20 @@ func (m *C19Monitor) AfterTx(c *Chain, ctx sdk.Context, tx sdk.Tx, ok bool) {
 		}
 	}
 	after := takeHoldings(c, ctx)
+	for _, msg := range tx.GetMsgs() {
+		if sv, is := msg.(*oracletypes.MsgSubmitValue); is {
+			var own []string
+			for sel, rep := range after.sel {
+				if rep == sv.Creator {
+					own = append(own, sel)
+				}
+			}
+			if m.backers == nil {
+				m.backers = map[string][]string{}
+			}
+			m.backers[fmt.Sprintf("%x|%s|%d", QueryID(sv.QueryData), sv.Creator, ctx.BlockHeight())] = own
+		}
+	}
 	priv := takePriv(c, ctx)
 	name, _ := layerMsg(tx)
 	m.st.Count("c19.tx.evals")
@@ -230,10 +265,27 @@ func (m *C19Monitor) AfterTx(c *Chain, ctx sdk.Context, tx sdk.Tx, ok bool) {
 				}
 				return false, nil
 			})
+			// ... and paid means paid: what this transaction recorded as fee and as escrowed stake has arrived in the dispute
+			// account (up to the known one-unit truncations per selector / origin, findings F10 and F31)
+			if funded {
+				recorded := after.recFee.Sub(m.h.recFee).Add(after.recEsc.Sub(m.h.recEsc))
+				arrived := after.disp.Sub(m.h.disp)
+				if recorded.IsPositive() && recorded.Sub(arrived).GT(math.NewInt(1000)) {
+					funded = false
+					m.st.Bucket("c19|dispute-message|recorded-as-paid-but-coins-missing")
+				}
+			}
 			m.st.Bucket("c19|dispute-message|%T|funded-after=%v", x, funded)
 			if addr, err := sdk.AccAddressFromBech32(ev.Reporter); err == nil && funded {
 				allowed[ev.Reporter] = "disputed-reporter"
-				if snap, err := c.App.ReporterKeeper.Report.Get(ctx, collJoinReport(ev.QueryId, addr, ev.BlockNumber)); err == nil {
+				// "its backers": the accounts that had selected the reporter when the report was made - the monitor's own record
+				// of that moment; the chain's stake snapshot is only used for reports the monitor did not see being made
+				if own, seen := m.backers[fmt.Sprintf("%x|%s|%d", ev.QueryId, ev.Reporter, ev.BlockNumber)]; seen {
+					m.st.Bucket("c19|backers-from-own-record")
+					for _, b := range own {
+						allowed[b] = "backer-of-disputed-report"
+					}
+				} else if snap, err := c.App.ReporterKeeper.Report.Get(ctx, collJoinReport(ev.QueryId, addr, ev.BlockNumber)); err == nil {
 					for _, o := range snap.TokenOrigins {
 						allowed[sdk.AccAddress(o.DelegatorAddress).String()] = "backer-of-disputed-report"
 					}
